@@ -9,4 +9,6 @@ pub mod sqlite;
 pub mod parse;
 pub mod expr_spec;
 pub mod stmt_spec;
+pub mod stmt_gen;
+pub mod stmt_params;
 pub mod props;
